@@ -597,6 +597,12 @@ class Sim:
         rr = 0
         serial_cur = 0
         start = self.steps
+        if mode == 'fast':
+            return self._run_fast(until)
+        # fairness: real parties run concurrently, so no enabled entity can be postponed for ever
+        # (a party busy-waiting in barrier()/shutdown() with sleep(0) must not starve the others)
+        fair = int(sched.get('fair', 150))
+        waiting = {}
         while True:
             if until is not None and until():
                 break
@@ -638,7 +644,47 @@ class Sim:
                     starve = {rng.randrange(ne)}
             else:
                 raise HarnessError(f'unknown schedule mode {mode}')
+            ens_ = set(en)
+            for x in list(waiting):
+                if x not in ens_:
+                    del waiting[x]
+            for x in en:
+                waiting[x] = waiting.get(x, 0) + 1
+            oldest = max(en, key=lambda x: waiting[x])
+            if waiting[oldest] > fair:
+                k = oldest
+            waiting[k] = 0
             self._do(ents[k])
+        return self.steps - start
+
+    def _run_fast(self, until=None):
+        """Canonical cheap schedule: every party in turn gets all pending bytes and iterates."""
+        start = self.steps
+        m = self.m
+        while True:
+            progress = False
+            for j in range(m):
+                if j in self.crashed:
+                    continue
+                if until is not None and until():
+                    return self.steps - start
+                for i in range(m):
+                    if i == j:
+                        continue
+                    w = self.wire[i, j]
+                    if w:
+                        self.arrived[i, j] += w
+                        w.clear()
+                    if self.eof.get((i, j)) == 'pending':
+                        self.eof[i, j] = 'arrived'
+                if self._enabled(('L', j)):
+                    self._do(('L', j))
+                    progress = True
+            if not progress:
+                break
+            if self.steps - start > self.MAX_STEPS:
+                self.inconclusive = True
+                break
         return self.steps - start
 
     # ---------------------------------------------------------------- running programs
